@@ -33,7 +33,7 @@ func init() {
 	core.Register(&core.Check{
 		ID:          "C15",
 		Level:       "exploration",
-		Rule:        "handler programs: any subset of {key, down, up, move, animate, input} with parameter lists omitted, fully named or with _ in any position; bodies print the payload, update global counters/arrays/maps, use locals that shadow globals used by other handlers, read and update globals that carry the parameter names of other handlers (x, t, k, val), call shared functions, return early, panic; event sequences of length <= 30 with payload classes (NaN, infinities, empty and non-ASCII strings, markup), delivered through Evaluator.HandleEvent after Eval as pkg/wasm does. Two oracles: (a) metamorphic - the same evaluator running the program with handlers rewritten as procedures and events as calls; (b) the reference interpreter. distinct = distinct (program text, event sequence)",
+		Rule:        "handler programs: any subset of {key, down, up, move, animate, input} with parameter lists omitted, fully named or with _ in any position; bodies print the payload, update global counters/arrays/maps, use locals that shadow globals used by other handlers, read and update globals that carry the parameter names of other handlers (x, t, k, val), call shared functions, return early, panic; event sequences of length <= 30 with payload classes (NaN, infinities, empty and non-ASCII strings, markup), delivered through Evaluator.HandleEvent after Eval as pkg/wasm does; plus sessions that go on delivering events after a handler ended in an Evy panic (fresh scopes on shared globals, three-handler model). Two oracles: (a) metamorphic - the same evaluator running the program with handlers rewritten as procedures and events as calls; (b) the reference interpreter. distinct = distinct (program text, event sequence)",
 		Assumptions: []string{"events for which the program declares no handler are not delivered (pkg/wasm registers only declared handlers)"},
 		NumCases: func(tier string) int {
 			if tier == "thorough" {
